@@ -16,14 +16,20 @@ func init() { register("C07", "exploration", runC07) }
 var c07Leaves = []*spec.V{spec.NilV, spec.B(true), spec.B(false), spec.I(0), spec.I(1), spec.F(0), spec.F(1), spec.S(""), spec.S("1")}
 var c07Keys = []string{"a", "b", "c"}
 
-const c07Variants = 5
+const c07Variants = 6
 
-var c07VariantNames = []string{"keys inserted in listed order", "keys inserted in reverse order", "dirty history (extra key set then unset, values overwritten)", "lists built from runs of equal elements by NewListOf (shared field objects) joined by Concat", "nested containers are user types embedding List/Object (derived structures)"}
+var c07VariantNames = []string{"keys inserted in listed order", "keys inserted in reverse order", "dirty history (extra key set then unset, values overwritten)", "lists built from runs of equal elements by NewListOf (shared field objects) joined by Concat", "nested containers are user types embedding List/Object (derived structures)", "structurally equal nested containers are ONE shared instance referenced from several places"}
+
+// c07Recv: construction routes of the LEFT operand (receiver)
+var c07Recv = []int{0, 3, 5}
 
 // buildVariant builds a specification with a chosen insertion history for every object in it.
 func buildVariant(v *spec.V, variant int) interface{} {
 	if variant == 4 {
 		return buildDerived(v, 0)
+	}
+	if variant == 5 {
+		return buildSharedEqual(v, map[string]interface{}{})
 	}
 	switch v.K {
 	case spec.Lst:
@@ -75,6 +81,34 @@ func buildVariant(v *spec.V, variant int) interface{} {
 	default:
 		return v.Native()
 	}
+}
+
+// buildSharedEqual builds an acyclic GRAPH: nested containers with equal specifications are the identical
+// instance (seeded change C07-10a: a per-call memo of receiver-side containers already found equal).
+func buildSharedEqual(v *spec.V, memo map[string]interface{}) interface{} {
+	if !v.IsContainer() {
+		return v.Native()
+	}
+	key := v.String()
+	if r, ok := memo[key]; ok {
+		return r
+	}
+	var out interface{}
+	if v.K == spec.Lst {
+		l := at.NewList()
+		for _, e := range v.L {
+			l.Add(buildSharedEqual(e, memo))
+		}
+		out = l
+	} else {
+		o := at.NewObject()
+		for _, e := range v.KV {
+			o.Set(e.K, buildSharedEqual(e.V, memo))
+		}
+		out = o
+	}
+	memo[key] = out
+	return out
 }
 
 // buildDerived builds the tree with every NESTED container wrapped in a user type that embeds it.
@@ -189,7 +223,7 @@ func runC07(c *ev.Ctx) {
 			objs = append(objs, t)
 		}
 	}
-	c.Rule(fmt.Sprintf("(1) full square: every ordered pair of list-rooted trees and every ordered pair of object-rooted trees with <= %d nodes, depth <= 3 over near-miss leaves {nil,true,false,0,1,0.0,1.0,\"\",\"1\"} (+ empty list/object) and keys {a,b,c}: %d lists, %d objects; the right operand built through 3 insertion histories (listed order, reverse order, dirty). (2) every tree with <= %d nodes paired with each of its single-point edits at any depth (leaf kind changed, element appended/removed/swapped, key renamed/added/removed, container kind changed), both directions, 3 histories. (3) the same for trees with <= %d nodes, depth <= 4 over leaves {1,\"a\"}. Oracle: reference structural equality on the specifications (kind-strict, key-order-insensitive); equality with an equivalence relation on every ordered pair implies reflexivity, symmetry and transitivity on the enumerated set. Non-trivial = distinct ordered pair of different specifications (or different build histories of one specification).", sqNodes, len(lists), len(objs), neighNodes, deepNodes))
+	c.Rule(fmt.Sprintf("(1) full square: every ordered pair of list-rooted trees and every ordered pair of object-rooted trees with <= %d nodes, depth <= 3 over near-miss leaves {nil,true,false,0,1,0.0,1.0,\"\",\"1\"} (+ empty list/object) and keys {a,b,c}: %d lists, %d objects; the right operand built through 6 construction routes (keys in listed order, reverse order, dirty history, shared field objects, derived structures, structurally equal nested containers as ONE shared instance), the left operand alternating between plain, shared-field and shared-instance construction. (2) every tree with <= %d nodes paired with each of its single-point edits at any depth (leaf kind changed, element appended/removed/swapped, key renamed/added/removed, container kind changed), both directions, all routes. (3) the same for trees with <= %d nodes, depth <= 4 over leaves {1,\"a\"}. Oracle: reference structural equality on the specifications (kind-strict, key-order-insensitive); equality with an equivalence relation on every ordered pair implies reflexivity, symmetry and transitivity on the enumerated set. Non-trivial = distinct ordered pair of different specifications (or different build histories of one specification).", sqNodes, len(lists), len(objs), neighNodes, deepNodes))
 	c.Assume("NaN is excluded (the statement says NaN-free data)", "List.Equals takes a List and Object.Equals an Object, so roots of different kinds cannot be compared; kind mismatches are exercised at nested positions")
 	stop := func() bool { return c.Expired() || c.TooMany() }
 
@@ -209,7 +243,7 @@ func runC07(c *ev.Ctx) {
 				}
 			}
 			va := set[i]
-			a := buildVariant(va, int(i%2)*3) // receivers alternate between plain and shared-field construction
+			a := buildVariant(va, c07Recv[i%3]) // receivers alternate between plain, shared-field and shared-container construction
 			for j := int64(0); j < n; j++ {
 				vb := set[j]
 				want := spec.Equal(va, vb)
@@ -227,7 +261,7 @@ func runC07(c *ev.Ctx) {
 							sig = "equals/panic"
 						}
 						c.Violate(ev.Violation{Sig: sig, Msg: msg, Witness: map[string]interface{}{"left": va.String(), "right": vb.String(), "right_history": c07VariantNames[vr]}}, func() string {
-							g, p, _ := equalsRoot(buildVariant(set[i], 0), buildVariant(set[j], vr))
+							g, p, _ := equalsRoot(buildVariant(set[i], c07Recv[i%3]), buildVariant(set[j], vr))
 							if p {
 								return "equals/panic"
 							}
@@ -300,7 +334,8 @@ func runC07(c *ev.Ctx) {
 						if dir == 1 {
 							x, y = ed, v
 						}
-						a, b := buildVariant(x, 3*((vr+dir)%2)), buildVariant(y, vr)
+						recv := c07Recv[(vr+dir)%3]
+						a, b := buildVariant(x, recv), buildVariant(y, vr)
 						got, pn, pv := equalsRoot(a, b)
 						bad := pn || got != want
 						if !bad {
@@ -322,7 +357,7 @@ func runC07(c *ev.Ctx) {
 							}
 							c.Violate(ev.Violation{Sig: sig, Msg: fmt.Sprintf("%s .Equals( %s [%s] ) = %v (panic=%v %v), want %v (operands differ by one edit)", x, y, c07VariantNames[vr], got, pn, pv, want),
 								Witness: map[string]interface{}{"left": x.String(), "right": y.String(), "right_history": c07VariantNames[vr]}}, func() string {
-								g, p, _ := equalsRoot(buildVariant(x, 0), buildVariant(y, vr))
+								g, p, _ := equalsRoot(buildVariant(x, recv), buildVariant(y, vr))
 								switch {
 								case p:
 									return "equals-edit/panic"
